@@ -372,7 +372,7 @@ func c12Partition(work string, part int, cases []*c12Case, out chan<- c12Outcome
 		rf := filepath.Join(work, fmt.Sprintf("c12-p%d-g%d.results", part, gen))
 		of := filepath.Join(work, fmt.Sprintf("c12-p%d-g%d.out", part, gen))
 		cmd := exec.Command(os.Args[0], "c12child", "quick", cf, strconv.Itoa(pos), rf)
-		cmd.Env = append(os.Environ(), "GORACE=halt_on_error=0 atexit_sleep_ms=0 log_path="+filepath.Join(work, fmt.Sprintf("race-c12-p%d-g%d", part, gen)))
+		cmd.Env = append(os.Environ(), "GORACE=halt_on_error=0 exitcode=0 atexit_sleep_ms=0 log_path="+filepath.Join(work, fmt.Sprintf("race-c12-p%d-g%d", part, gen)))
 		res := child.Run(cmd, of, 10*time.Minute, nil)
 		rs := c12ReadResults(rf)
 		for k, r := range rs {
